@@ -402,6 +402,45 @@ def gen_C09(w, tier):
     return out
 
 
+def gen_C09_lifetimes(w, tier):
+    """parameter-set objects that are created, used, dropped and re-created (possibly at the same address):
+    a restore under the new object must be judged against the NEW object's elements"""
+    out = []
+    r = w.rng
+    gid = w.groups["ed"]
+    pid = w.next_pid + 500
+    for rep in range(6 if tier == "quick" else 40):
+        for side in "ABS":
+            sc = w.scenario("C09/lifetimes/%s/%d" % (side, rep), ("params-lifetime", "saved:" + side))
+            seeds1 = (b"M-%d" % rep, b"N-%d" % rep, b"S-%d" % rep)
+            sc.do("params %d %d %s %s %s" % (pid, gid, hx(seeds1[0]), hx(seeds1[1]), hx(seeds1[2])))
+            a = w.sid()
+            sc.do("new %d %s %d %s %s %s %s" % (a, side, pid, hx(b"pw"), hx(b"a"), hx(b"b"), hx(w.entropy_for(w.ps["ed"], 5 + rep))))
+            sc.do("start %d" % a)
+            data = payload(sc.do("ser %d" % a))
+            ok1 = sc.do("restore %d %s %d %s" % (w.sid(), side, pid, hx(data or b"")))
+            which = "MNS".index("M" if side == "A" else "N" if side == "B" else "S")
+            seeds2 = list(seeds1)
+            seeds2[which] = b"other-%d" % rep
+            sc.do("reparams %d %d %s %s %s" % (pid, gid, hx(seeds2[0]), hx(seeds2[1]), hx(seeds2[2])))
+            o = sc.do("restore %d %s %d %s" % (w.sid(), side, pid, hx(data or b"")))
+            o2 = sc.do("restore %d %s %d %s" % (w.sid(), side, pid, hx(data or b"")))
+            sc.do("unparams %d" % pid)
+            sc.meta.update(o=(ok1, o, o2))
+
+            def pred(io, sc):
+                ok1, o, o2 = sc.meta["o"]
+                if ok1 != "ok":
+                    return "restore under the saving parameters failed: %s" % ok1
+                for x in (o, o2):
+                    if x != "raise:WrongGroupError":
+                        return "restore under a re-created parameter set with another blinding element: %s" % x
+                return None
+            sc.pred = pred
+            out.append(sc)
+    return out
+
+
 def _diff_seeds(a, b):
     sa = a.seeds or (b"M", b"N", b"symmetric")
     sb = b.seeds or (b"M", b"N", b"symmetric")
